@@ -1277,7 +1277,12 @@ def c16(ctx):
                     if s["rv"]["k"] == "agg" and s["rv"].get("ak") == "closure" and s["rv"].get("closure") == fv:
                         for o in s["rv"]["fields"]:
                             l = op_local(o)
-                            if l is not None and "Vec<std::path::PathBuf" in m.locals[l]["ty"]:
+                            ty_ = m.locals[l]["ty"] if l is not None else ""
+                            # the source list itself, or a request/plan struct that carries it
+                            if l is not None and ("Vec<std::path::PathBuf" in ty_ or
+                                                  (ty_.split("<")[0] in fx.adts and not ty_.startswith("&")
+                                                   and any("PathBuf" in str(fd_) for v_ in fx.adts[ty_.split("<")[0]].get("variants", [])
+                                                           for fd_ in v_.get("fields", [])))):
                                 caps.add(l)
     caps0 = set(caps)
     # aliases of the captured list by plain moves (backwards)
@@ -1316,7 +1321,8 @@ def c16(ctx):
                 else:
                     # the list may travel to the copy inside a plan/context struct, through `?` and destructuring
                     import p_thread
-                    roots = [x for x in seen if "Vec<std::path::PathBuf" in m.locals[x]["ty"] and not m.locals[x]["ty"].startswith("&")]
+                    roots = [x for x in seen if not m.locals[x]["ty"].startswith("&") and (
+                        "Vec<std::path::PathBuf" in m.locals[x]["ty"] or m.locals[x]["ty"].split("<")[0] in fx.adts)]
                     tn, _via = p_thread.taint_from(m, roots)
                     if tn & caps0:
                         it_ok = True
